@@ -30,7 +30,8 @@ type backendBehavior struct {
 	DialRefuse    bool
 	DialHang      bool
 	DialDelay     time.Duration
-	ConfigPackets int // extra config-phase packets (RegistrySync-like unknown ids) to send
+	JoinDelay     time.Duration         // extra time between the end of login/config and JoinGame (a slow world load)
+	ConfigPackets int                   // extra config-phase packets (RegistrySync-like unknown ids) to send
 	OnJoined      func(bc *backendConn) // runs in the connection's script goroutine after JoinGame was sent
 	OnConfig      func(bc *backendConn) // runs in config phase before FinishedUpdate (1.20.2+)
 	OnLogin       func(bc *backendConn) // runs after ServerLogin was read, before LoginSuccess
@@ -52,27 +53,27 @@ func (b *backendModel) Name() string   { return b.name }
 func (b *backendModel) Addr() net.Addr { return b.addr }
 
 type backendConn struct {
-	b         *backendModel
-	idx       int
-	w         *wireEnd
-	conn      *simnet.Conn
-	beh       backendBehavior
-	Handshake *packet.Handshake
-	Login     *packet.ServerLogin
-	Phase     string // "handshake","login","config","prejoin","play","closed"
-	Joined    bool
-	JoinSeq   int
-	EOFSeen   bool
-	EOFSeq    int
-	sendMu    sync.Mutex
+	b            *backendModel
+	idx          int
+	w            *wireEnd
+	conn         *simnet.Conn
+	beh          backendBehavior
+	Handshake    *packet.Handshake
+	Login        *packet.ServerLogin
+	Phase        string // "handshake","login","config","prejoin","play","closed"
+	Joined       bool
+	JoinSeq      int
+	EOFSeen      bool
+	EOFSeq       int
+	sendMu       sync.Mutex
 	VelocityResp *packet.LoginPluginResponse
 	PluginResps  []*packet.LoginPluginResponse
-	Done      bool
-	Err       error
-	PlayerName string
-	OnPacket  func(rec *pktRec) // called by the play reader for every packet
-	KeepAlives []int64 // keep-alive ids received from the proxy (replies)
-	KALog      []kaEvent
+	Done         bool
+	Err          error
+	PlayerName   string
+	OnPacket     func(rec *pktRec) // called by the play reader for every packet
+	KeepAlives   []int64           // keep-alive ids received from the proxy (replies)
+	KALog        []kaEvent
 }
 
 type kaEvent struct {
@@ -302,6 +303,10 @@ func (bc *backendConn) run() {
 	// Gate switches the backend connection's session handler a few instructions after it
 	// wrote the FinishedUpdate acknowledgement (window documented in DESIGN.md §7).
 	simrt.Sleep(time.Millisecond, "backend.latency")
+	if bc.beh.JoinDelay > 0 {
+		bc.b.w.r.Fault("backend_slow_join")
+		simrt.Sleep(bc.beh.JoinDelay, "backend.join-delay")
+	}
 	if err := bc.send(joinGameFor(w.prot, bc.EntityID())); err != nil {
 		bc.noteEOF()
 		return
